@@ -91,13 +91,30 @@ def make_interp(run, base_it, log, device=None):
             return Packed(fmt, vals, n)
         if qual == 'struct.unpack':
             fmt, buf = args
+            import re as _re
             out = []
-            for c in fmt.lstrip('<>'):
-                out.append(fresh_int('resp', 0, 255))
-            if getattr(buf, 'is_status_response', False):
-                run.notes['last_status'] = out[0]
-                run.notes['last_state'] = out[4]
-                eff.append(('status', out[0], out[4], len(run.pc)))
+            body_fmt = fmt.lstrip('<>=!@')
+            if not _re.fullmatch(r'(\d*[Bbsx])+', body_fmt):
+                raise I.Unsupported('struct.unpack format %r' % fmt)
+            for cnt, c in _re.findall(r'(\d*)([Bbsx])', body_fmt):
+                k = int(cnt) if cnt else 1
+                if c == 'B':
+                    out += [fresh_int('resp', 0, 255) for _ in range(k)]
+                elif c == 's':
+                    out.append(I.ByteSeq([fresh_int('resp', 0, 255) for _ in range(k)]))
+                elif c == 'x':
+                    [fresh_int('resp', 0, 255) for _ in range(k)]
+                else:
+                    raise I.Unsupported('struct.unpack code %r' % c)
+            flat = []
+            for x in out:
+                flat += x.items if isinstance(x, I.ByteSeq) else [x]
+            out_flat = flat
+            if getattr(buf, 'is_status_response', False) and len(out_flat) == 6:
+                # DFU 1.1 section 6.1.2: bStatus, bwPollTimeout[3], bState, iString
+                run.notes['last_status'] = out_flat[0]
+                run.notes['last_state'] = out_flat[4]
+                eff.append(('status', out_flat[0], out_flat[4], len(run.pc)))
             return tuple(out)
         if qual == 'time.sleep':
             eff.append(('sleep', args[0], len(run.pc)))
@@ -161,7 +178,11 @@ def make_interp(run, base_it, log, device=None):
 
     def b_range(it, args):
         lo, hi = (0, args[0]) if len(args) == 1 else (args[0], args[1])
-        return SymRange(lo, hi)
+        r = SymRange(lo, hi)
+        r.step = args[2] if len(args) > 2 else 1
+        if I.is_sym(r.step) or r.step <= 0:
+            raise I.Unsupported('range with a symbolic or non-positive step')
+        return r
 
     def dict_pick(it, d, key, cands):
         # a description string picked from a table by a symbolic code: only printed
@@ -216,8 +237,7 @@ def havoc(it, env, names, fresh_int, tag):
 def install_loop_rules(it, run, log, fresh_int):
     state = {'for': 0, 'while': 0}
 
-    def for_hook(itp, s, env):
-        rng = itp.eval(s.iter, env)
+    def for_hook(itp, s, env, rng):
         if not isinstance(rng, SymRange):
             # re-evaluation must not happen twice for side-effecting iterables; ranges are pure
             return None
@@ -253,6 +273,10 @@ def install_loop_rules(it, run, log, fresh_int):
         kv = fresh_int('iter%d' % k)
         run.assume(itp.dom.lift(kv).t >= itp.dom.lift(lo).t)
         run.assume(itp.dom.lift(kv).t < itp.dom.lift(hi).t)
+        step = getattr(rng, 'step', 1)
+        if step != 1:
+            run.assume((itp.dom.lift(kv).t - itp.dom.lift(lo).t) % step == 0)
+        run.notes.setdefault('ranges', {})[k] = (lo, hi, step)
         itp.assign(s.target, kv, env)
         run.notes.setdefault('iters', {})[k] = kv
         start = len(run.effects)
@@ -440,30 +464,51 @@ def obligations_cli(ctx, base_it, env):
                 ctx.add(Obligation('dfu.cli_main/path%d/C18-%s%d-request%d-issued-with-device-not-busy' % (i, loop[0], loop[1], j),
                                    list(p.pc[:x[5]]), goal, 'INT', func='dfu.cli_main', kind='effect', cover=False,
                                    meta={'replay': ('dfu', {'props': ['C18'], 'key_prefix': 'protocol'}), 'props': ['C18']}))
-            # C18 (2): addresses and chunks
-            kv = p.notes.get('iters', {}).get(loop[1])
+            # C18 (2): addresses and chunks, stated on the requests themselves (not on how the loop counts):
+            #   every erase / set-address targets a page-aligned address inside [base, base + padded length) of the flash,
+            #   the chunk written after a set-address(A) is padded_image[A - base : A - base + 1024],
+            #   the padded image is the firmware followed by fewer than 1024 bytes, its length a multiple of 1024
+            BASE = 0x08000000
+            fwn = p.notes.get('firmware')
+            last_addr = None
             for x in dn:
                 d = x[4]
-                if isinstance(d, Packed) and kv is not None:
+                if isinstance(d, Packed):
                     a = d.values[1]
                     at = a.t if I.is_sym(a) else z3.IntVal(a)
-                    goal = z3.And(at == 0x08000000 + 1024 * kv.t, at >= 0x08000000, at + 1024 <= 0x08000000 + 1024 * 128)
-                    ctx.add(Obligation('dfu.cli_main/path%d/C18-%s%d-address-is-page-%s-inside-flash' % (i, loop[0], loop[1], 'k'), list(p.pc[:x[5]]),
+                    last_addr = at
+                    goal = z3.And((at - BASE) % 1024 == 0, at >= BASE, at + 1024 <= BASE + 1024 * 128)
+                    ctx.add(Obligation('dfu.cli_main/path%d/C18-%s%d-address-is-a-page-inside-flash' % (i, loop[0], loop[1]), list(p.pc[:x[5]]),
                                        goal, 'INT', func='dfu.cli_main', kind='effect', cover=False,
                                        meta={'replay': ('dfu', {'props': ['C18']}), 'props': ['C18'],
                                              'what': 'an erase / set-address targets an address outside the page grid of the device flash'}))
-                elif isinstance(d, I.SliceOf) and kv is not None:
+                elif isinstance(d, I.SliceOf):
                     st_, sp_ = d.start, d.stop
                     fw = d.base
                     fwlen = fw.length if isinstance(fw, W.SymSized) else None
                     goal = z3.BoolVal(False)
-                    if I.is_sym(st_) and I.is_sym(sp_) and fwlen is not None:
+                    if I.is_intlike(st_) and I.is_intlike(sp_) and fwlen is not None and last_addr is not None:
                         fl = fwlen.t if I.is_sym(fwlen) else z3.IntVal(fwlen)
-                        goal = z3.And(st_.t == 1024 * kv.t, sp_.t == st_.t + 1024, sp_.t <= fl, fl % 1024 == 0, fl >= n, fl - n < 1024)
-                    ctx.add(Obligation('dfu.cli_main/path%d/C18-%s%d-chunk-is-the-kth-page-of-the-padded-image' % (i, loop[0], loop[1]),
+                        stt = st_.t if I.is_sym(st_) else z3.IntVal(st_)
+                        spt = sp_.t if I.is_sym(sp_) else z3.IntVal(sp_)
+                        goal = z3.And(stt == last_addr - BASE, spt == stt + 1024, spt <= fl, fl % 1024 == 0, fl >= n, fl - n < 1024)
+                    ctx.add(Obligation('dfu.cli_main/path%d/C18-%s%d-chunk-is-the-page-of-the-padded-image-at-the-address-set' % (i, loop[0], loop[1]),
                                        list(p.pc[:x[5]]), goal, 'INT', func='dfu.cli_main', kind='effect', cover=False,
                                        meta={'replay': ('dfu', {'props': ['C18']}), 'props': ['C18'],
-                                             'what': 'the chunk written is not firmware[1024*page : 1024*page+1024] of the zero-padded image'}))
+                                             'what': 'the chunk written is not the 1024 bytes of the zero-padded image at the address just set'}))
+        # both loops range over the same pages, starting with the first: the pages erased are the pages written
+        rngs = p.notes.get('ranges', {})
+        if len(rngs) >= 2:
+            ks = sorted(rngs)[:2]
+            (lo1, hi1, s1), (lo2, hi2, s2) = rngs[ks[0]], rngs[ks[1]]
+            L = lambda v: (v.t if I.is_sym(v) else z3.IntVal(int(v)))     # noqa: E731
+            fwlen2 = None
+            same = z3.And(L(lo1) == L(lo2), L(hi1) == L(hi2), z3.BoolVal(s1 == s2))
+            first = z3.Or(L(lo1) == 0, L(lo1) == 0x08000000)
+            ctx.add(Obligation('dfu.cli_main/path%d/C18-erase-and-write-loops-cover-the-same-pages-from-the-first' % i, list(p.pc),
+                               z3.And(same, first), 'INT', func='dfu.cli_main', kind='invariant', cover=False,
+                               meta={'replay': ('dfu', {'props': ['C18']}), 'props': ['C18'],
+                                     'what': 'the erase loop and the write loop do not range over the same pages starting with page 0'}))
     if n_req_paths == 0:
         ctx.errors.append('dfu.cli_main: no path sends a request')
     ctx.samples.append({'dfu_cli_paths': len(paths), 'paths_with_requests': n_req_paths})
